@@ -46,6 +46,17 @@ def probes(rng, n_random):
         add("kernel_type " + good, None)
     for good in ["N", "NE", "E", "SE", "S", "SW", "W", "NW", "none", "None"]:
         add("direction " + good, None)
+    # C-string overloads: a null pointer is an empty name - rejected as a model type with the
+    # documented invalid_argument, accepted as "no kernel" / "no direction"
+    add("model_type_cstr <null>", INVALID)
+    add("model_type_cstr SI", None)
+    add("model_type_cstr " + BOGUS[0], INVALID)
+    add("kernel_type_cstr <null>", None)
+    add("kernel_type_cstr cauchy", None)
+    add("kernel_type_cstr " + BOGUS[0], INVALID)
+    add("direction_cstr <null>", None)
+    add("direction_cstr NE", None)
+    add("direction_cstr " + BOGUS[0], INVALID)
     for good in ["SI", "SEI", "susceptible-infected", "susceptible_exposed_infected"]:
         add("model_type " + good, None)
     for good in ["deterministic", "Probabilistic", "<empty>", "none", "NONE"]:
